@@ -46,7 +46,14 @@ def rawtop : Handler := fun args impl =>
         | some core, none => if o == "PANIC" then some "C19 panic" else some s!"C19 a valid JSON text was not captured ({o}); expected {hexField core}"
         | none, some g => some s!"C19 captured {g} from an input that is not one JSON value"
         | none, none => none
-      { model := m, specs := [judge 0 false, judge 1 false, judge 2 true, judge 3 true, judge 4 true].filterMap id }
+      -- C14: a RawValue is a `str`: whatever text comes back must be valid UTF-8
+      let c14 := (fields.filterMap fun o =>
+        if o.startsWith "R" then
+          match bytesOfHex (((o.drop 1).toString.splitOn "@").headD "") with
+          | some t => if Spec.Utf8.validUtf8 t then none else some s!"C14 a RawValue holds text that is not valid UTF-8: {o}"
+          | none => none
+        else none)
+      { model := m, specs := ([judge 0 false, judge 1 false, judge 2 true, judge 3 true, judge 4 true].filterMap id) ++ c14 }
     | none => bad "hex"
   | _ => bad "arity"
 
